@@ -26,6 +26,8 @@ type WorkerResult struct {
 	DeadlineHit bool                     `json:"deadline_hit"`
 	Violation   *sched.Violation         `json:"violation,omitempty"`
 	Error       string                   `json:"error,omitempty"`
+	// Unexplorable: scenarios in which an operation blocks outside the scheduler's control
+	Unexplorable []string `json:"unexplorable,omitempty"`
 	Samples     []map[string]interface{} `json:"samples,omitempty"`
 	WriteScen   []string                 `json:"scenarios_with_shared_writes,omitempty"`
 	MaxStepsOp  int                      `json:"max_steps_per_thread"`
@@ -69,6 +71,13 @@ func RunWorker(shard, of int, seed int64, thorough bool, budget time.Duration, p
 			if s > res.MaxStepsOp {
 				res.MaxStepsOp = s
 			}
+		}
+		if err != nil && strings.Contains(err.Error(), "step limit") {
+			// an operation waits for another thread outside the scheduler's control
+			// (a channel, a condition): the cooperative explorer cannot run this
+			// scenario; it is left to the free-running pass and reported as not explored
+			res.Unexplorable = append(res.Unexplorable, sc.Name)
+			continue
 		}
 		if err != nil {
 			res.Error = err.Error()
